@@ -5,6 +5,7 @@ import (
 	"fmt"
 	banktypes "github.com/cosmos/cosmos-sdk/x/bank/types"
 	govtypes "github.com/cosmos/cosmos-sdk/x/gov/types"
+	"sort"
 	"time"
 
 	"c4emc/explore"
@@ -116,6 +117,15 @@ func c13Payloads() []c13Payload {
 	// a start time moved far into the future (minting pauses), and a configuration that has period 1 only
 	mPart("valid3-start-far", start.Add(1000*time.Second), func() []*mtypes.Minter { return minters(valid3) })
 	mPart("only-id-1", start, func() []*mtypes.Minter { return minters(mintCfg{Periods: []mp{{Kind: ref.NoMint}}}) })
+	// four periods, the third ending before (and exactly when) the second does
+	fourBad := func(d time.Duration) func() []*mtypes.Minter {
+		return func() []*mtypes.Minter {
+			return minters(mintCfg{Periods: []mp{{Kind: ref.Linear, Amount: "1000", End: 30 * time.Second}, {Kind: ref.Linear, Amount: "10", End: 200 * time.Second},
+				{Kind: ref.Linear, Amount: "10", End: 200*time.Second + d}, {Kind: ref.NoMint}}})
+		}
+	}
+	mPart("four-third-ends-before-second", start, fourBad(-100*time.Second))
+	mPart("four-third-ends-with-second", start, fourBad(0))
 	mPart("ids-2-3", start, from2)
 	mPart("unordered", start, unordered)
 	mPart("gap", start, gap)
@@ -347,6 +357,12 @@ func c13State(w *harness.World, ctx sdk.Context, aux interface{}) []*explore.Vio
 	if err := mp.Validate(); err != nil {
 		bad("stored-minter-invalid", "stored minter parameters do not validate: %v", err)
 	}
+	// the same rules stated independently of the module's own validator (an oracle must not rely on the
+	// books of the code under test): ids consecutive and positive, every period but the last has an end,
+	// the last has none, every end lies after the previous end (the first after the start time)
+	if why := refMintersInvalid(mp); why != "" {
+		bad("stored-minter-invalid", "stored minter parameters break the validation rules: %s", why)
+	}
 	if !mp.ContainsMinter(w.App.CfeminterKeeper.GetMinterState(ctx).SequenceId) {
 		bad("current-period-missing", "the minter's current period %d is not in the stored configuration", w.App.CfeminterKeeper.GetMinterState(ctx).SequenceId)
 	}
@@ -357,6 +373,37 @@ func c13State(w *harness.World, ctx sdk.Context, aux interface{}) []*explore.Vio
 		bad("stored-vesting-invalid", "stored vesting parameters do not validate: %v", err)
 	}
 	return vs
+}
+
+func refMintersInvalid(p mtypes.Params) string {
+	if len(p.Minters) == 0 {
+		return "no minters"
+	}
+	ms := append([]*mtypes.Minter{}, p.Minters...)
+	sort.Slice(ms, func(i, j int) bool { return ms[i].SequenceId < ms[j].SequenceId })
+	prev := p.StartTime
+	for i, m := range ms {
+		if m.SequenceId == 0 || (i > 0 && m.SequenceId != ms[i-1].SequenceId+1) {
+			return fmt.Sprintf("ids are not positive and consecutive at position %d", i)
+		}
+		last := i == len(ms)-1
+		if last {
+			if m.EndTime != nil {
+				if _, err := m.GetMinterConfig(); err == nil {
+					// an end on the last period is tolerated by the module only for some types; not judged here
+				}
+			}
+			continue
+		}
+		if m.EndTime == nil {
+			return fmt.Sprintf("period %d has no end although it is not the last", m.SequenceId)
+		}
+		if !m.EndTime.After(prev) {
+			return fmt.Sprintf("period %d ends at %s, not after its start %s", m.SequenceId, m.EndTime.UTC().Format(time.RFC3339), prev.UTC().Format(time.RFC3339))
+		}
+		prev = *m.EndTime
+	}
+	return ""
 }
 
 func runC13(rc *RunCtx) {
